@@ -15,6 +15,7 @@ import (
 	"verifharness/c16"
 	"verifharness/c17"
 	"verifharness/c18"
+	"verifharness/c20"
 	"verifharness/wk"
 )
 
@@ -28,6 +29,7 @@ var runners = map[string]func(*wk.Job, *wk.Worker) error{
 	"c16": c16.Run,
 	"c17": c17.Run,
 	"c18": c18.Run,
+	"c20": c20.Run,
 }
 
 func main() {
